@@ -38,7 +38,11 @@ def expand_to_target(
                 continue
 
             # Check if the size limit has been exceeded already.
-            if (size_limit is not None) and (len(sd) >= size_limit):
+            if (
+                (size_limit is not None)
+                and (len(sd) >= size_limit)
+                and not sd.node_data(node)["expanded"]
+            ):
                 # Size limit reached.
                 return False
 
